@@ -142,12 +142,15 @@ class SharedMemoryFileBufferedCollection(FileBufferedCollection):
                         type(self)._CURRENT_BUFFER_SIZE -= 1
                     if not force:
                         del type(self)._buffer[self._filename]
-                    else:
+                    elif cached_data["modified"]:
                         # Have to update the metadata on a force flush because
                         # we could modify this item again later, leading to
                         # another (possibly forced) flush afterwards that will
                         # appear invalid if the metadata isn't updated to the
-                        # metadata after the current flush.
+                        # metadata after the current flush. An entry that was
+                        # not written keeps its metadata: if somebody else has
+                        # changed the file in the meantime, a later
+                        # modification must still be detected as a conflict.
                         cached_data["metadata"] = self._get_file_metadata()
                         cached_data["modified"] = False
         else:
